@@ -606,7 +606,7 @@ package syncer
 //@   arith int
 //@   properties C14
 //@   replay syncer_bisyncStartPoint
-//@   modifies heap, savedFrontierSeq, savedFrontierOk, bLen, bFirst, bLast, bCpPuts, bCp, bCpPos, tCpHigh, cpArmed, startSeq, startPinned, curDb, cpDb
+//@   modifies heap, savedFrontierSeq, savedFrontierOk, bLen, bFirst, bLast, bCpPuts, bCp, bCpPos, tCpHigh, cpArmed, startSeq, startPinned, curDb, cpDb, rootReads, rootOff, rootRun
 
 // ---- bidirectional sync: what is suppressed as the tool's own traffic (C13) ---------------
 // Only the reserved bookkeeping namespace decides: a command is dropped as bookkeeping only
@@ -900,10 +900,27 @@ func SpecContains(s string, sub string) bool { return false }
 //@   properties C07 C17
 //@   replay syncer_SetRunId
 //@   requires nonnil: ro != nil
-//@   modifies heap, phase, curDb, cpDb
+//@   modifies heap, phase, curDb, cpDb, rootReads, rootOff, rootRun
 //@   ensures failed_attempt_keeps_the_previous_id: result != nil ==> ro.cfg.RunId == old(ro.cfg.RunId)
 //@   ensures successful_attempt_adopts_the_new_id: result == nil ==> ro.cfg.RunId == id
 
 // ---- the tool's own bisync bookkeeping found in a source is never replayed (C10) --------------
 // (the checkpoint namespaces are withheld by the output filter's prefix black list; the bisync
 // namespace cannot be put there because the bisync stream parser must see the marker writes)
+
+// ---- switching the bidirectional recovery format keeps the live resume position (C17) ---------
+// A full resync records its position at the root checkpoint of the namespace only; a start
+// resumes from it when it is ahead of the mode-specific state (bisyncStartPoint, "root
+// override"). The seed of the new namespace is therefore chosen after consulting the root
+// checkpoint and is never behind it.
+//@ func checkpoint.LoadBisyncLatestStartRecord(cli, checkpointName, slots, runIDs) (best, count, err)
+//@   trusted abstract bookkeeping store
+
+//@ func syncer.loadBisyncMigrationSeed
+//@   arith int
+//@   properties C17
+//@   replay syncer_migrationRootNewer
+//@   requires nonnil: cli != nil
+//@   modifies heap, curDb, cpDb, rootReads, rootOff, rootRun, startSeq, startPinned
+//@   ensures the_seed_is_chosen_after_consulting_the_root_checkpoint: result1 == nil ==> result0 != nil && rootReads == old(rootReads) + 1
+//@   ensures the_seed_is_not_behind_the_root_checkpoint: result1 == nil && checkpoint.matchRun(rootRun, ids) ==> result0.Offset >= rootOff
